@@ -71,6 +71,15 @@ def be(env, v, n):
     return [(v // (1 << (8 * (n - 1 - i)))) % 256 for i in range(n)] if not env.symbolic else list(v.to_bytes(n, "big")) if not isinstance(v, int) else list(v.to_bytes(n, "big"))
 
 
+SHORT_COORD_SCALARS = {
+    "secp256r1": {(32, 31): (43, 444, 742, 997, 1307, 1486), (31, 32): (379, 552, 751, 783, 833, 1094),
+                  (31, 31): (49350, 112756, 120908, 124396, 136425, 213297)},
+    "secp384r1": {(48, 47): (176, 831, 1163, 1247, 1283, 1425), (47, 48): (197, 234, 463, 550, 1069, 1511),
+                  (47, 47): (6394, 10184, 64159, 108595, 202428, 249034)},
+    "secp521r1": {(65, 66): (1, 5, 8, 13, 15, 19), (65, 65): (2, 4, 7, 11, 30, 33), (66, 65): (9, 14, 16, 17, 20, 23)},
+}
+
+
 def _ecc_keys(env, c):
     curve, n = c["curve"], CS[c["curve"]]
     lim = (1 << 521) - 1 if curve == "secp521r1" else (1 << (8 * n)) - 1
@@ -88,14 +97,18 @@ def _ecc_keys(env, c):
         mx, my = env.int(f"x{i}", 0, lim), env.int(f"y{i}", 0, lim)
         want = (min((mx.bit_length() + 7) // 8, n), min((my.bit_length() + 7) // 8, n))
         want = tuple(max(w, n - 1) for w in want)   # at most one leading zero byte is searched for
+        # scalars whose points have a short X and / or Y were found once by a scan (1/256 resp. 1/65536 of all points);
+        # each is checked again here, the scan is only the fall-back
+        known = SHORT_COORD_SCALARS.get(curve, {}).get(want, ())
+        cand = list(known[i % len(known):]) + list(known[:i % len(known)]) if known else []
         d = (mx % 1000003) + 1 + 7919 * i
-        for _ in range(400000):
-            pub = ec.derive_private_key(d, crv).public_key()
+        for t in range(400000):
+            dd = cand[t] if t < len(cand) else d + t
+            pub = ec.derive_private_key(dd, crv).public_key()
             nums = pub.public_numbers()
             got = ((nums.x.bit_length() + 7) // 8, (nums.y.bit_length() + 7) // 8)
             if got == want:
                 break
-            d += 1
         keys.append(PublicKeyEcc(pub))
     return keys
 
